@@ -87,7 +87,7 @@ pub fn check_bounds(plan: &T2Plan, s: &h2::verif::VerifStats, c: &h2::verif::Cod
     // data-frame budget; empty ones by the lifetime cap of 100)
     let target = cfg.conn_target().max(65_535) as usize;
     let budget = cfg.data_frame_budget.unwrap_or(25_600).min(1 << 24);
-    let ev_bound = 4 * s.store_slab + target / 256 + budget / 1 + 100 + 16 + if plan.e_client { 100_000 } else { 0 };
+    let ev_bound = 4 * s.store_slab + target / 256 + budget / 1 + 100 + 16;
     viol("recv_buffer_events", s.recv_buffer_slots, ev_bound, format!("4 x records + window/256 + data-frame budget {} + 100 empty + 16", budget));
     viol("recv_buffer_bytes", s.recv_buffer_data_bytes, target + 16_384, "connection window target + one frame".into());
     // frames queued for sending that the local application did not ask for: replies only
